@@ -95,7 +95,7 @@ CHECKS = {
         ref="5 C06", technique="Coq theorems by unfolding/induction on the element list + Leaves invariant; in-Coq differential check + Spec.v monitor",
         note="Trusted: as C01. That split_comma / parse_int are str::split(',') / FromStr of the std integers is tied by correspondence; set/map value theorems are for the keep-going error type. No axioms."),
     "C09": dict(
-        text="Proof: (c09_ignored) without deny_unknown_fields the run on a payload equals, for every script and state, result and calls, the run on the payload with all unknown-key "
+        text="Proof: (c09_accepted_keys) the accepted-keys list built by the derive is the effective keys of the non-skipped fields in declaration order for every field list (the sort moving skipped fields last is stable); (c09_ignored) without deny_unknown_fields the run on a payload equals, for every script and state, result and calls, the run on the payload with all unknown-key "
              "members removed; (c09_denied_step) with it, a member whose key matches no field is reported as UnknownKey with the accepted-key list at the container's location and the loop "
              "continues; (c09_unknown_member_result, specification level) a member whose key is no field's effective key is exactly one UnknownKey report / one user-function call / nothing at all, "
              "per the attribute, summed over the members by c02_fields_independent. Correspondence + Spec.v monitor + pair monitor (extra keys change nothing) on generated derive inputs.",
